@@ -189,6 +189,7 @@ void genGroup(Choices& c, Case& k, vh::Stats& st) {
 
 // ---- judging one search ----------------------------------------------------------------------
 std::string nLabel(int n) { return n >= 8 ? "N>=8" : "N=" + std::to_string(n); }
+std::string nNum(int n) { return n >= 8 ? ">=8" : std::to_string(n); }
 
 std::string judge(const SearchSpec& s, const us::Result& r, vh::Stats& st, bool& decisive) {
     ref::Pos root;
@@ -228,7 +229,7 @@ std::string judge(const SearchSpec& s, const us::Result& r, vh::Stats& st, bool&
         int n = -fin.inf.score;
         int v = lostWithin(root, n);
         if (v == 0) return "completed search ended with '" + fin.raw.substr(0, 120) + "' but the opponent cannot force mate within " + std::to_string(n) + " moves against every defence";
-        if (v == 1) { decisive = true; st.cls("final 'mate -N' verified"); st.count(std::string("verified final mate -") + nLabel(n).substr(2)); } else st.count("inconclusive: losing score check");
+        if (v == 1) { decisive = true; st.cls("final 'mate -N' verified"); st.count(std::string("verified final mate -") + nNum(n)); } else st.count("inconclusive: losing score check");
     }
     // (4) mate in one
     if (!m1.empty()) {
@@ -241,7 +242,7 @@ std::string judge(const SearchSpec& s, const us::Result& r, vh::Stats& st, bool&
         bool mating = false; for (auto& m : m1) if (m.m.uci() == r.best) mating = true;
         if (!mating) return "a mate in one exists (" + m1[0].m.uci() + ") but bestmove " + r.best + " does not mate";
     }
-    if (oc.dtm && oc.dv.wdl > 0) st.count("dtm root won in " + nLabel(oc.dv.moves()).substr(2));
+    if (oc.dtm && oc.dv.wdl > 0) st.count("dtm root won in " + nNum(oc.dv.moves()));
     return "";
 }
 
